@@ -20,7 +20,7 @@ from vt.explore import choice_dfs
 PROPERTY = "C18"
 LEVEL = "model_checking"
 ASSUMPTIONS = [
-  "reference: vt/memref.py (dict of bytes, little endian, AMOs on words only); sub-word AMOs are outside the alphabet",
+  "reference: vt/memref.py (dict of bytes, little endian; an AMO acts on the addressed len bytes, operand = low bytes of the data field, signedness at that width)",
   "linearizability: there must be an interleaving of the per-port request sequences, consistent with real time (a response observed before another request was issued), "
   "whose sequential execution yields exactly the observed responses (type, opaque, len, data) and the final image",
   "randomness is replaced by a stall oracle (random() answers 'no stall' by default and 'stall' at the call indices chosen by the explorer, deviation bound 1 quick / 2 thorough)",
@@ -35,9 +35,11 @@ ALPHA = [
   ("ADD", (MR.AMO_ADD, 0, 0, 0xFFFFFFFF)), ("SWP", (MR.AMO_SWAP, 0, 0, 0x01020304)), ("MIN", (MR.AMO_MIN, 0, 0, 0x80000000)),
   ("MAXU", (MR.AMO_MAXU, 0, 0, 0x1234)), ("XOR", (MR.AMO_XOR, 0, 0, 0x0F0F0F0F)), ("MAX", (MR.AMO_MAX, 0, 0, 0x7FFFFFFF)), ("MINU", (MR.AMO_MINU, 0, 0, 0x00FF00FF)),
   ("AND", (MR.AMO_AND, 0, 0, 0xF0F0FFFF)), ("OR", (MR.AMO_OR, 0, 0, 0x00000F0F)),
+  # atomic operations on fewer bytes than the data field holds
+  ("ADD2", (MR.AMO_ADD, 2, 2, 0xFFFF)), ("MIN2", (MR.AMO_MIN, 0, 2, 0x8000)), ("SWP1", (MR.AMO_SWAP, 1, 1, 0x5A)), ("MAXU3", (MR.AMO_MAXU, 0, 3, 0x00C0FF)),
 ]
 ADICT = dict(ALPHA)
-COLLIDE = ["W4", "W1", "R4", "ADD", "SWP", "R2", "MAXU"]
+COLLIDE = ["W4", "W1", "R4", "ADD", "SWP", "R2", "MAXU", "ADD2", "MIN2"]
 INIT_IMAGE = {BASE + i: v for i, v in enumerate([0xEF, 0xBE, 0xAD, 0xC0, 0x44, 0x33, 0x22, 0x11])}   # word 0xC0ADBEEF: bit 31 set
 
 
@@ -352,13 +354,40 @@ def work(tier):
   return W
 
 
+def check_edges(acc):
+  """the last bytes of the memory: every (address, size) with address + size <= memory size is readable / writable through the image
+  interface (read_mem / write_mem) and through read / write; one byte further is refused"""
+  from pymtl3.stdlib.mem.MagicMemoryFL import MagicMemoryFL
+  from pymtl3 import Bits32
+  N = 16
+  for addr in range(N - 5, N + 1):
+    for size in (1, 2, 4):
+      acc.count("executions"); acc.count("transitions")
+      m = MagicMemoryFL(mem_nbytes=N); m.elaborate()
+      case = dict(model="edge", addr=addr, size=size)
+      data = bytes(range(1, size + 1))
+      inside = addr + size <= N
+      try:
+        m.write_mem(addr, data); got = bytes(m.read_mem(addr, size)); exc = None
+      except Exception as ex:
+        got, exc = None, ex
+      if inside and (exc is not None or got != data):
+        acc.violation("edge:image-access-to-the-last-bytes-refused", case, "bytes written and read back", repr(exc) if exc else got, f"write_mem / read_mem({addr}, {size}) in a {N}-byte memory")
+      if not inside and exc is None and got is not None and len(got) == size:
+        acc.violation("edge:image-access-beyond-the-end-accepted", case, "refused", got, f"addr {addr} size {size} in a {N}-byte memory")
+  acc.count("request_sets")
+
+
 def shards(tier):
   k = 64
-  return [(i, k) for i in range(k)]
+  return [(i, k) for i in range(k)] + [("edge",)]
 
 
 def run_shard(shard, tier, seed):
   acc = Acc()
+  if shard[0] == "edge":
+    check_edges(acc)
+    return acc
   W = work(tier)
   cfgs = configs(tier)
   for j in range(shard[0], len(W), shard[1]):
@@ -382,6 +411,9 @@ def run_shard(shard, tier, seed):
 
 def replay(case):
   acc = Acc()
+  if case["model"] == "edge":
+    check_edges(acc)
+    return [(v["sig"], v["expected"], v["observed"], v["msg"]) for v in acc.violations if v["case"] == case][:3]
   if case["model"] == "fl":
     check_fl(tuple(case["letters"][0]), acc)
     return [(v["sig"], v["expected"], v["observed"], v["msg"]) for v in acc.violations][:3]
